@@ -226,3 +226,105 @@ func VerifHarness_C13_RoundTripBooleanInteger() {
 	verifrt.Assert(ok, "toString-then-toT-is-identity")
 	verifrt.Reach("end")
 }
+
+// verifRoundTrip: x.toString().toT() = x through the function table.
+func verifRoundTrip(x any, target string) {
+	t := verifFullTable()
+	s, err := t["toString"].Func(verifCtx(), system.Collection{x})
+	verifrt.Assert(err == nil && len(s) == 1, "toString-of-system-value")
+	if err != nil || len(s) != 1 {
+		return
+	}
+	back, err2 := t["to"+target].Func(verifCtx(), s)
+	ok := err2 == nil && len(back) == 1
+	if ok {
+		eq, has := back.TryEqual(system.Collection{x})
+		ok = eq && has
+	}
+	verifrt.Assert(ok, "toString-then-toT-is-identity")
+	conv, err3 := t["convertsTo"+target].Func(verifCtx(), s)
+	verifrt.Assert(err3 == nil && len(conv) == 1 && conv[0] == system.Boolean(true), "its-own-text-converts")
+	verifrt.Reach("end")
+}
+
+// Decimal: symbolic mantissa over a menu of scales (trailing zeros and negative values included).
+func VerifHarness_C13_RoundTripDecimal() {
+	shapes := [][2]int{{0, 4}, {1, 3}, {3, 4}}
+	if verifrt.Thorough() {
+		shapes = [][2]int{{0, 9}, {1, 6}, {3, 6}, {8, 9}, {18, 19}}
+	}
+	sh := shapes[verifrt.Choose("shape", len(shapes))]
+	verifRoundTrip(system.Decimal(verifrt.NondetDecimalDigits("d", sh[0], sh[1])), "Decimal")
+}
+
+// Time: every precision, every time of day.
+func VerifHarness_C13_RoundTripTime() {
+	text := []byte{}
+	two := func(v int) { text = append(text, byte('0'+v/10), byte('0'+v%10)) }
+	two(verifrt.NondetIntRange("hh", 0, 23))
+	p := verifrt.Choose("precision", 4)
+	if p >= 1 {
+		text = append(text, ':')
+		two(verifrt.NondetIntRange("mm", 0, 59))
+	}
+	if p >= 2 {
+		text = append(text, ':')
+		two(verifrt.NondetIntRange("ss", 0, 59))
+	}
+	if p >= 3 {
+		ms := verifrt.NondetIntRange("ms", 0, 999)
+		text = append(text, '.', byte('0'+ms/100), byte('0'+ms/10%10), byte('0'+ms%10))
+	}
+	x, err := system.ParseTime(string(text))
+	verifrt.Assume(err == nil)
+	verifRoundTrip(x, "Time")
+}
+
+// Date and DateTime on a menu of calendar days (the calendar itself is C09's subject), every precision; DateTime with
+// symbolic time of day and each offset form.
+func VerifHarness_C13_RoundTripDate() {
+	day := []string{"2020-02-29", "1999-12-31", "2024-01-01"}[verifrt.Choose("day", 3)]
+	x, err := system.ParseDate(day[:[]int{4, 7, 10}[verifrt.Choose("precision", 3)]])
+	verifrt.Assume(err == nil)
+	verifRoundTrip(x, "Date")
+}
+
+func VerifHarness_C13_RoundTripDateTime() {
+	verifrt.SplitCalendar()
+	day := []string{"2020-02-29", "1999-12-31"}[verifrt.Choose("day", 2)]
+	p := verifrt.Choose("precision", 7) // year, month, day, hour, minute, second, millisecond
+	var text []byte
+	if p <= 2 {
+		text = append([]byte(day[:[]int{4, 7, 10}[p]]), 'T')
+	} else {
+		text = append([]byte(day), 'T')
+		two := func(v int) { text = append(text, byte('0'+v/10), byte('0'+v%10)) }
+		two(verifrt.NondetIntRange("hh", 0, 23))
+		if p >= 4 {
+			text = append(text, ':')
+			two(verifrt.NondetIntRange("mm", 0, 59))
+		}
+		if p >= 5 {
+			text = append(text, ':')
+			two(verifrt.NondetIntRange("ss", 0, 59))
+		}
+		if p >= 6 {
+			ms := verifrt.NondetIntRange("ms", 0, 999)
+			text = append(text, '.', byte('0'+ms/100), byte('0'+ms/10%10), byte('0'+ms%10))
+		}
+		text = append(text, []string{"", "Z", "+05:30", "-08:00"}[verifrt.Choose("zone", 4)]...)
+	}
+	x, err := system.ParseDateTime(string(text))
+	verifrt.Assume(err == nil)
+	verifRoundTrip(x, "DateTime")
+}
+
+// Quantity: symbolic value, unit menu (UCUM in quotes, calendar keywords, the default unit).
+func VerifHarness_C13_RoundTripQuantity() {
+	d := verifrt.NondetDecimalDigits("v", verifrt.Choose("scale", 2), 3)
+	unit := []string{"mg", "1", "year", "days", "kg/m2", "ms"}[verifrt.Choose("unit", 6)]
+	verifrt.Tag("unitName", unit)
+	q, err := system.ParseQuantity(d.String(), unit)
+	verifrt.Assume(err == nil)
+	verifRoundTrip(q, "Quantity")
+}
